@@ -156,6 +156,8 @@ def render_targets(out, pk, path, need, part=None):
         if f.get("file") != part:
             continue
         out.append("// %s does something." % f["name"])
+        if f.get("longdoc"):       # a very long doc comment
+            out += ["// line %d of the description of %s: %s." % (k, f["name"], "lorem ipsum " * 8) for k in range(f["longdoc"])]
         out.append("func %s%s\n" % (f["name"], body(f["sig"], defid(path, "", f["name"]))))
     if part is not None:
         return
@@ -325,6 +327,10 @@ def _place(files, ops, dirrel, base, shape, text, tag):
         raise ValueError(shape)
 
 
+def filler_name(k, namelen):
+    return ("ff%05d_" % k) + "x" * max(0, namelen - 11) + ".go"
+
+
 def render_project(proj, repo, probe_go, ops=None):
     """{relative path: text} of the whole project directory; ops (a list) receives the file-system
     operations to be done after the files are written (links, modes, directories)"""
@@ -343,6 +349,10 @@ def render_project(proj, repo, probe_go, ops=None):
         for part in sorted({f["file"] for f in pk["funcs"] if f.get("file")}):
             shape = next((f.get("shape") for f in pk["funcs"] if f.get("file") == part and f.get("shape")), None)
             _place(files, ops, j(modroot, pk["dir"]), part, shape, render_extra_file(proj, pk, part), proj["name"] + "_" + pk["dir"].replace("/", "_"))
+        fl = pk.get("filler")
+        if fl:                                     # hundreds of source files with long names and nothing in them
+            for k in range(fl["count"]):
+                files[j(modroot, pk["dir"], filler_name(k, fl["namelen"]))] = "package %s\n" % pk["pkg"]
         for c in pk.get("clutter", []):
             kind, nm = c.split(":", 1)
             if kind == "dir":                      # a directory with a .go name: ignored by everyone
